@@ -942,8 +942,13 @@ func specASResp(m message.Message) *message.AssociationSetupResponse {
 //@   ensures C08.net.ok: err == nil ==> ep.IPNet != nil && (len(ep.IPNet.IP) == 4 || len(ep.IPNet.IP) == 16) && len(ep.IPNet.Mask) == len(ep.IPNet.IP)
 //@   ensures C08.net.ports: ep.ports == old[portRange](ep.ports)
 
+// specPortTok / specPortTokOK (the token that gives a bound of a port expression; it is a decimal
+// number that is a port) are defined next to the assumed contract of strings.Split in
+// /verif/contracts/ext/std.ctr.
 //@ func (ep *endpoint) parsePort(port string) (err error)
 //@   requires ep != nil
+//@   ensures C08.port.accept: (err == nil) <==> (specSplitN(port, "-") <= 2 && specPortTokOK(specPortTok(port, 0)) && specPortTokOK(specPortTok(port, 1)) && specDecVal(specPortTok(port, 0), 10) <= specDecVal(specPortTok(port, 1), 10))
+//@   ensures C08.port.value: err == nil ==> uint64(ep.ports.low) == specParseUintVal(specPortTok(port, 0), 10, 16) && uint64(ep.ports.high) == specParseUintVal(specPortTok(port, 1), 10, 16)
 //@   ensures C08.port.ordered: err == nil ==> ep.ports.low <= ep.ports.high
 //@   ensures C08.port.keep: err != nil ==> ep.ports == old[portRange](ep.ports)
 //@   ensures C08.port.net: ep.IPNet == old[*net.IPNet](ep.IPNet)
